@@ -184,13 +184,7 @@ Definition as_doc_tail (v : val) : option (decl_doc * list misc) :=
 
 Definition ret {A} (f : A -> val) (o : option A) : val := match o with Some a => f a | None => VBad end.
 
-Fixpoint str_eqb (a b : str) : bool :=
-  match a, b with
-  | [], [] => true
-  | x :: a', y :: b' => N.eqb x y && str_eqb a' b'
-  | _, _ => false
-  end.
-
+(** [str_eqb] is Peg.str_eqb (element-wise N.eqb) *)
 Definition s_yes : str := [121;101;115].
 
 (** Element::set_content *)
